@@ -1,6 +1,7 @@
 import AnnVerif.Model.DriverUtil
 import AnnVerif.Model.WirePrim
 import AnnVerif.Model.Rlp
+import AnnVerif.Model.SignBytes
 open AnnVerif AnnVerif.Drv AnnVerif.WirePrim AnnVerif.Rlp
 
 structure St where
@@ -66,6 +67,12 @@ def step (s : St) (line : String) : St × String :=
     | some b => (match decode b with
       | .ok x => (s, "ok " ++ showItem x) | .error e => (s, showRlpErr e))
     | none => (s, "bad-op")
+  | ["sbvote", h, r, t, hash, total, phash] =>
+    let dec (x : String) : Option Bytes := if x == "-" then some [] else Hex.decode x
+    match parseInt h, parseInt r, parseNat t, dec hash, parseInt total, dec phash with
+    | some h, some r, some t, some hash, some total, some phash =>
+      (s, String.ofList (AnnVerif.SignBytes.voteJson "c18".toList h r t ⟨hash, total, phash⟩))
+    | _, _, _, _, _, _ => (s, "bad-op")
   | "go" :: _ => (s, "ok")   -- Go-side-only oracle op (struct-level codecs): nothing for the model
   | _ => (s, "bad-op")
 
